@@ -18,11 +18,17 @@
 From Ford Require Import Base.Str.
 
 Inductive perm := Public | Private | Protected.
-Inductive kind := KVar | KType | KProc | KGeneric | KAbs.
+Inductive kind := KVar | KType | KProc | KGeneric | KAbs | KProcPtr.
 Inductive cls := CProc | CAbs | CType | CVar.
 
-Definition cls_of (k : kind) : cls :=
-  match k with KVar => CVar | KType => CType | KProc => CProc | KGeneric => CProc | KAbs => CAbs end.
+(* which dictionaries an own declaration of a module goes to.  A procedure pointer declared in a
+   module is a variable and, by FortranModule._cleanup, also an entry of all_procs/pub_procs. *)
+Definition kind_in_cls (k : kind) (c : cls) : bool :=
+  match k, c with
+  | KVar, CVar | KType, CType | KProc, CProc | KGeneric, CProc | KAbs, CAbs => true
+  | KProcPtr, CVar | KProcPtr, CProc => true
+  | _, _ => false
+  end.
 Definition cls_eqb (a b : cls) : bool :=
   match a, b with CProc, CProc | CAbs, CAbs | CType, CType | CVar, CVar => true | _, _ => false end.
 Definition all_cls : list cls := [CProc; CAbs; CType; CVar].
@@ -61,7 +67,7 @@ Definition update {V} (t : list (str * V)) (l : list (str * V)) : list (str * V)
   fold_left (fun t kv => assoc_set (fst kv) (snd kv) t) l t.
 
 Definition decls_of (c : cls) (M : module) : list decl :=
-  filter (fun d => cls_eqb (cls_of (d_kind d)) c) (m_decls M).
+  filter (fun d => kind_in_cls (d_kind d) c) (m_decls M).
 Definition entry (M : module) (d : decl) : str * ent := (d_name d, (m_name M, d_name d)).
 
 (* _cleanup: all_<c> holds every own declaration, pub_<c> those whose permission is public or
